@@ -198,6 +198,167 @@ def write_overrides(root: Path) -> dict:
 
 
 # ---------------------------------------------------------------------------
+# the shape of the database path (spec/BackupPaths.tla)
+# ---------------------------------------------------------------------------
+UTF8 = {"JAVA_TOOL_OPTIONS": "-Dfile.encoding=UTF-8 -Dstdout.encoding=UTF-8 -Dsun.stdout.encoding=UTF-8"}
+SIB_PAGE = ("Sibling page", 0, "committed in the write-ahead log of the sibling", "wikitext")
+
+
+def path_shapes(o: Outcome | None, thorough: bool) -> list:
+    """TLC: the explored path shapes with the names of their files and their siblings (SHAPE cases),
+    the laws N2-N5 checked on them; the two demo configurations must show the counterexample of a
+    computation that reads the name as a pattern (vacuity guard)."""
+    jobs = [("Paths", "BackupPaths", "BackupPaths_all.cfg" if thorough else "BackupPaths_quick.cfg", dict(workers=1, timeout=300, env=UTF8)),
+            ("Demo_BackupPaths_restoreglob", "BackupPaths", "Demo_BackupPaths_restoreglob.cfg", dict(workers=1, check=False, env=UTF8)),
+            ("Demo_BackupPaths_closeglob", "BackupPaths", "Demo_BackupPaths_closeglob.cfg", dict(workers=1, check=False, env=UTF8))]
+    res = tlc_many(jobs)
+    shapes = sorted(res["Paths"].tagged("SHAPE"), key=lambda c: c["id"])
+    if o is not None:
+        for name, *_ in jobs:
+            o.add_tlc(name, res[name])
+        for name in ("Demo_BackupPaths_restoreglob", "Demo_BackupPaths_closeglob"):
+            o.extra.setdefault("demo_counterexample_found", {})[name] = bool(res[name].invariant_violated)
+            if not res[name].invariant_violated:
+                raise common.TLCError(f"{name} no longer shows the name-read-as-a-pattern counterexample (vacuity guard)")
+    if not shapes:
+        raise common.TLCError("BackupPaths printed no shape")
+    for sh in shapes:
+        names = list(sh["files"].values()) + [x for q in sh["sibs"] for x in q.values()]
+        if len(set(names)) != len(names) or any("/" in n or not n for n in names):
+            raise RuntimeError("BackupPaths: names of a shape are not distinct file names: " + json.dumps(sh))
+    return shapes
+
+
+def shape_desc(sh: dict) -> str:
+    return (f"database path shape '{sh['id']}': " + ("relative path " if sh["rel"] else "")
+            + repr((sh["dir"] + "/" if sh["dir"] else "") + sh["files"]["main"]) + f" ({sh['what']})")
+
+
+def shape_dir(base: Path, sh: dict | None) -> Path:
+    return base / sh["dir"] if sh and sh["dir"] else base
+
+
+def shape_db(base: Path, sh: dict | None) -> Path:
+    return shape_dir(base, sh) / (sh["files"]["main"] if sh else DBNAME)
+
+
+def build_sibling_seed(root: Path, s0: Path) -> Path:
+    """A database of another owner, left by a killed process: main file with the base pages + one more
+    page that is committed in its own -wal (+ -shm).  Made with sqlite3 alone."""
+    d = root / "SIB"
+    d.mkdir()
+    shutil.copy(s0 / DBNAME, d / "x")
+    pid = os.fork()
+    if pid == 0:
+        try:
+            con = sqlite3.connect(str(d / "x"))
+            con.execute("PRAGMA journal_mode=WAL").fetchall()
+            con.execute("INSERT INTO pages(title, namespace_id, body, model) VALUES (?, ?, ?, ?)", SIB_PAGE)
+            con.commit()
+            os._exit(0)
+        except BaseException:
+            os._exit(3)
+    _, st = os.waitpid(pid, 0)
+    if os.waitstatus_to_exitcode(st) != 0 or not (d / "x-wal").exists() or (d / "x-wal").stat().st_size == 0:
+        raise RuntimeError("could not build the sibling database")
+    return d
+
+
+def build_shape(root: Path, sh: dict, sib_seed: Path) -> Path:
+    """Start state of a shape: the base database built by the library under that name, the siblings beside it."""
+    base = root / ("SH_" + sh["id"])
+    d = shape_dir(base, sh)
+    build_base(d, sh["files"]["main"], sh["rel"])
+    for q in sh["sibs"]:
+        shutil.copy(sib_seed / "x", d / q["main"])
+        shutil.copy(sib_seed / "x-wal", d / q["wal"])
+        shutil.copy(sib_seed / "x-shm", d / q["shm"])
+    return base
+
+
+_PROBES: list = []
+
+
+def probe_tempdir_close(root: Path, sh: dict, sib_seed: Path) -> dict:
+    """BackupPaths N5: close_db_conn() removes the files of a database that lies directly in the temporary
+    directory.  The shape's directory (database, backup, siblings = BackupPaths!DirBefore) is made the temporary
+    directory of a child process (tempfile.tempdir), which opens, backs up, commits and closes."""
+    top = root / ("TC_" + sh["id"])
+    shutil.copytree(root / ("SH_" + sh["id"]), top)
+    d = shape_dir(top, sh)
+    r, w = os.pipe()
+    pid = os.fork()
+    if pid == 0:
+        try:
+            os.close(r)
+            _quiet()
+            tempfile.tempdir = str(d)
+            from wikitextprocessor import Wtp
+
+            if sh["rel"]:
+                os.chdir(d)
+            ctx = Wtp(db_path=sh["files"]["main"] if sh["rel"] else str(d / sh["files"]["main"]), quiet=True)
+            ctx.backup_db()
+            ctx.add_page("Probe", 0, body="x")
+            ctx.db_conn.commit()
+            before = sorted(p.name for p in d.iterdir())
+            err = None
+            try:
+                ctx.close_db_conn()
+            except Exception as e:  # noqa: BLE001
+                err = repr(e)
+            os.write(w, json.dumps({"before": before, "after": sorted(p.name for p in d.iterdir()), "error": err}).encode())
+        finally:
+            os._exit(0)
+    os.close(w)
+    data = b""
+    while True:
+        b = os.read(r, 65536)
+        if not b:
+            break
+        data += b
+    os.close(r)
+    os.waitpid(pid, 0)
+    shutil.rmtree(top, ignore_errors=True)
+    res = json.loads(data.decode())
+    res["removed"] = sorted(set(res["before"]) - set(res["after"]))
+    res["shape"] = sh["id"]
+    return res
+
+
+def sibling_state(d: Path, sh: dict, scratch: Path) -> dict:
+    """-> {} when every sibling file is as it was built; else sibling name -> what happened."""
+    out = {}
+    ref = _G.get("sib_ref")
+    for q in sh["sibs"]:
+        diff = []
+        for role in ("main", "wal", "shm"):
+            f = d / q[role]
+            if not f.exists():
+                diff.append(f"{q[role]} removed")
+            elif ref and hashlib.sha1(f.read_bytes()).hexdigest() != ref[role]:
+                diff.append(f"{q[role]} changed")
+        if diff:
+            # what a reader of the sibling database would see now (copies)
+            rows = None
+            if (d / q["main"]).exists():
+                shutil.rmtree(scratch, ignore_errors=True)
+                scratch.mkdir()
+                shutil.copy(d / q["main"], scratch / "q")
+                if (d / q["wal"]).exists():
+                    shutil.copy(d / q["wal"], scratch / "q-wal")
+                try:
+                    con = sqlite3.connect(str(scratch / "q"))
+                    rows = sorted(r[0] for r in con.execute("SELECT title FROM pages"))
+                    con.close()
+                except sqlite3.DatabaseError:
+                    rows = None
+            lost = rows is None or SIB_PAGE[0] not in rows or "Base" not in rows
+            out[q["main"]] = {"files": diff, "content_lost": lost}
+    return out
+
+
+# ---------------------------------------------------------------------------
 # observing the files from outside (copies only; the originals are not touched)
 # ---------------------------------------------------------------------------
 def _read_db(path: Path):
@@ -257,13 +418,19 @@ def _file_state(path: Path, scratch: Path, with_wal: Path | None = None, with_jr
     return {"st": st, "c": c, "m": mode if st == "db" else "-"}
 
 
-def observe(d: Path, scratch: Path) -> dict:
-    main = d / DBNAME
-    wal = d / (DBNAME + "-wal")
-    shm = d / (DBNAME + "-shm")
-    jrn = d / (DBNAME + "-journal")
-    bak = main.with_stem(main.stem + "_backup")
-    known = {main.name, wal.name, shm.name, jrn.name, bak.name}
+def observe(d: Path, scratch: Path, sh: dict | None = None) -> dict:
+    """sh: a path shape of BackupPaths - the file names are the ones TLC computed for it (law N1)."""
+    if sh is None:
+        main = d / DBNAME
+        wal = d / (DBNAME + "-wal")
+        shm = d / (DBNAME + "-shm")
+        jrn = d / (DBNAME + "-journal")
+        bak = main.with_stem(main.stem + "_backup")
+        known = {main.name, wal.name, shm.name, jrn.name, bak.name}
+    else:
+        f = sh["files"]
+        main, wal, shm, jrn, bak = (d / f[x] for x in ("main", "wal", "shm", "jrn", "bak"))
+        known = {main.name, wal.name, shm.name, jrn.name, bak.name} | {x for q in sh["sibs"] for x in q.values()}
     others = sorted(p for p in d.iterdir() if p.name not in known)
     m = _file_state(main, scratch, with_jrn=jrn)
     if m["st"] == "db":
@@ -276,7 +443,7 @@ def observe(d: Path, scratch: Path) -> dict:
         tmp = _file_state(others[0], scratch)
     else:
         tmp = {"st": "multi", "c": [], "m": "-"}
-    return {
+    res = {
         "main": m,
         "wal": "absent" if not wal.exists() else ("empty" if wal.stat().st_size == 0 else "data"),
         "vis": vis,
@@ -285,6 +452,13 @@ def observe(d: Path, scratch: Path) -> dict:
         "bak": _file_state(bak, scratch),
         "tmp": tmp,
     }
+    if sh is not None:
+        sib = sibling_state(d, sh, scratch)
+        if sib:
+            res["sib"] = sib
+        if len(others) == 1 and others[0].name != sh["files"]["tmp"]:
+            res["tmpname"] = others[0].name
+    return res
 
 
 def okey(o: dict) -> str:
@@ -393,17 +567,21 @@ def _pkg_dir() -> str:
     return os.path.dirname(os.path.abspath(wikitextprocessor.__file__)) + os.sep
 
 
-def fork_flow(flow: str, db: Path, ov, k: int):
+def fork_flow(flow: str, db: Path, ov, k: int, rel: bool = False):
     """Run the flow in a forked child; kill it before the k-th executed line of the
     package.  k <= 0: never kill; the child then reports the number of executed lines
     and the line indices before which the bytes of the database directory had changed
-    (the step boundaries; found by looking at the files, not at line numbers)."""
+    (the step boundaries; found by looking at the files, not at line numbers).
+    rel: the process runs in the directory of the database and names it by a relative path."""
     r, w = os.pipe()
     pid = os.fork()
     if pid == 0:
         try:
             os.close(r)
             _quiet()
+            if rel:
+                os.chdir(db.parent)
+                db = Path(db.name)
             pkg = _pkg_dir()
             cnt = [0]
             dh = globals()["dirsig" if flow == JFLOW else "dirhash"]
@@ -461,7 +639,7 @@ def fork_flow(flow: str, db: Path, ov, k: int):
     return os.waitstatus_to_exitcode(st), "".join(x for x in lines if x != "P"), marks
 
 
-def fork_reopen(db: Path) -> dict:
+def fork_reopen(db: Path, rel: bool = False) -> dict:
     """A new process opens the database path (unmodified Wtp) and reads everything."""
     r, w = os.pipe()
     pid = os.fork()
@@ -469,6 +647,9 @@ def fork_reopen(db: Path) -> dict:
         try:
             os.close(r)
             _quiet()
+            if rel:
+                os.chdir(db.parent)
+                db = Path(db.name)
             from wikitextprocessor import Wtp
 
             res = {}
@@ -515,7 +696,7 @@ def build_jstarts(root: Path, s0: Path) -> dict:
     return {"zero": z, "absent": a, "basedel": dl}
 
 
-def build_base(d: Path) -> None:
+def build_base(d: Path, name: str = DBNAME, rel: bool = False) -> None:
     """S0: a cleanly closed database with the base pages (built by a child process)."""
     d.mkdir(parents=True)
     pid = os.fork()
@@ -525,7 +706,9 @@ def build_base(d: Path) -> None:
             from wikitextprocessor import Wtp
             from wikitextprocessor.dumpparser import add_default_templates
 
-            w = Wtp(db_path=str(d / DBNAME), quiet=True)
+            if rel:
+                os.chdir(d)
+            w = Wtp(db_path=name if rel else str(d / name), quiet=True)
             for (t, ns), (b, m) in BASE.items():
                 w.add_page(t, ns, body=b, model=m)
             add_default_templates(w)
@@ -559,10 +742,13 @@ def exec_tasks(chunk):
     try:
         for sid, flow, gen, k, keep in chunk:
             st = starts[sid]
-            work = wd / "d"
-            shutil.rmtree(work, ignore_errors=True)
-            shutil.copytree(st["dir"], work)
-            rc, msg, marks = fork_flow(flow, work / DBNAME, ov_paths(ov, flow, gen), k)
+            sh = st.get("shape")
+            rel = bool(sh and sh["rel"])
+            top = wd / "d"
+            shutil.rmtree(top, ignore_errors=True)
+            shutil.copytree(st["dir"], top)
+            work = shape_dir(top, sh)
+            rc, msg, marks = fork_flow(flow, shape_db(top, sh), ov_paths(ov, flow, gen), k, rel)
             r = {"sid": sid, "flow": flow, "k": k, "rc": rc, "msg": "", "marks": marks}
             if rc not in (0, 3, 137):
                 raise RuntimeError(f"child running flow {flow} ended with status {rc}")
@@ -579,12 +765,12 @@ def exec_tasks(chunk):
                 c = cache[h]
                 r.update(obs=c["obs"], reopen=c["reopen"], robs=c["robs"], same=True)
             else:
-                r["obs"] = observe(work, wd / "s")
+                r["obs"] = observe(work, wd / "s", sh)
                 if keep:
                     shutil.rmtree(keep, ignore_errors=True)
-                    shutil.copytree(work, keep)
-                r["reopen"] = fork_reopen(work / DBNAME)
-                r["robs"] = observe(work, wd / "s")
+                    shutil.copytree(top, keep)
+                r["reopen"] = fork_reopen(shape_db(top, sh), rel)
+                r["robs"] = observe(work, wd / "s", sh)
                 cache[h] = {"obs": r["obs"], "reopen": r["reopen"], "robs": r["robs"]}
             res.append(r)
     finally:
@@ -598,12 +784,14 @@ def start_result(root: Path, starts, ov, sid) -> None:
     _G.update(root=str(root), starts=starts, ov=ov)
     wd = Path(tempfile.mkdtemp(prefix="c11w-", dir=str(root / "work")))
     try:
-        work = wd / "d"
-        shutil.copytree(starts[sid]["dir"], work)
-        obs = observe(work, wd / "s")
-        re = fork_reopen(work / DBNAME)
-        starts[sid]["hash"] = dirhash(Path(starts[sid]["dir"]))
-        starts[sid]["result"] = {"obs": obs, "reopen": re, "robs": observe(work, wd / "s")}
+        sh = starts[sid].get("shape")
+        top = wd / "d"
+        shutil.copytree(starts[sid]["dir"], top)
+        work = shape_dir(top, sh)
+        obs = observe(work, wd / "s", sh)
+        re = fork_reopen(shape_db(top, sh), bool(sh and sh["rel"]))
+        starts[sid]["hash"] = dirhash(shape_dir(Path(starts[sid]["dir"]), sh))
+        starts[sid]["result"] = {"obs": obs, "reopen": re, "robs": observe(work, wd / "s", sh)}
     finally:
         shutil.rmtree(wd, ignore_errors=True)
 
@@ -757,7 +945,9 @@ def make_trace(tid, prefix_runs, sw: Sweep, kind: str = "base"):
     seq, idx = sw.seq()
     last_k = max(sw.res)
     killed = sw.res[last_k]["rc"] != 0  # killed, or died from an exception of the flow
-    return {"tid": tid, "start": kind, "runs": prefix_runs + [{"flow": sw.flow, "obs": seq, "killed": bool(killed)}]}, idx
+    runs = prefix_runs + [{"flow": sw.flow, "obs": seq, "killed": bool(killed)}]
+    runs = [dict(r_, obs=[{f: v for f, v in ob.items() if f not in ("sib", "tmpname")} for ob in r_["obs"]]) for r_ in runs]
+    return {"tid": tid, "start": kind, "runs": runs}, idx
 
 
 # ---------------------------------------------------------------------------
@@ -783,7 +973,7 @@ def judge(o: Outcome, case: dict, real: dict, cands: list, tabs: dict, chain_key
     why = (
         f"a new Wtp(db_path) after the kill yields content {describe(real['content'], real.get('page_versions'))}"
         f"{'' if integ_ok else ' (integrity_check: ' + str(real['integrity'] or real['error']) + ')'}; "
-        f"the statement demands {describe(exp)}" + side_files_note(case.get("files"))
+        f"the statement demands {describe(exp)}" + side_files_note(case.get("files")) + path_note(case)
     )
     # which deviations of the model explain it?  smallest Dev whose model has this
     # chain of observed file states and predicts exactly the real content
@@ -806,6 +996,42 @@ def judge(o: Outcome, case: dict, real: dict, cands: list, tabs: dict, chain_key
     else:
         o.violation(case, why, cls="unexplained:" + case["flows"])
     return "bad"
+
+
+def path_note(case: dict) -> str:
+    """The shape of the database path, and which files of the database lay in its directory when the process
+    died (by the names BackupPaths computes for this path)."""
+    if not case.get("path"):
+        return ""
+    ob = case.get("files") or {}
+    present = [n for n, v in (("-wal", ob.get("wal")), ("-shm", ob.get("shm")), ("-journal", ob.get("jrn")))
+               if v not in (None, "absent")]
+    if (ob.get("bak") or {}).get("st", "absent") != "absent":
+        present.append("the backup")
+    return (f" | {case['path']}: the expected content does not depend on the name; beside the database lay "
+            + (", ".join(present) or "no side file") + " of its own (BackupPaths N4: the restore removes exactly the -wal and -shm "
+            "of this database before the backup is renamed over it)")
+
+
+def judge_siblings(o: Outcome, case: dict, r: dict, sh: dict) -> None:
+    """Law N3/N4 of BackupPaths: a flow on one database touches no file of a sibling database.  A sibling that
+    lost committed content contradicts the statement for the sibling's path (opening it no longer yields its
+    last committed content); a touched file that costs no content is drift."""
+    for when, ob in (("when the process died", r["obs"]), ("after the next open of the database path", r.get("robs") or {})):
+        for qname, info in (ob.get("sib") or {}).items():
+            o.extra["path_shapes"]["sibling_files_touched"] += 1
+            what = (f"{when}, file(s) of the sibling database {qname!r} in the same directory were touched: "
+                    + ", ".join(info["files"]))
+            if info["content_lost"]:
+                o.violation(dict(case, sibling=qname, sibling_files=info["files"]),
+                            what + f" - opening {qname!r} no longer yields its last committed content (its pages were committed "
+                            "in its own write-ahead log); only the files BackupPaths!FileSet of the database itself may be touched"
+                            + path_note(case), cls="sibling:" + case["flows"])
+            else:
+                o.note_drift({"case": case, "why": what + " (no committed content of the sibling lost)"})
+            return
+    if r["obs"].get("tmpname") or (r.get("robs") or {}).get("tmpname"):
+        o.extra["path_shapes"]["temp_name_differs_from_model"] += 1
 
 
 def coarse_candidates(tabs: dict, chain_prefix, flow: str, marks: int):
@@ -868,7 +1094,17 @@ def describe(c, versions=None):
 JSTRIDE1, JSTRIDE2, JSTRIDE_OPEN = (96, 16), (192, 48), 32
 
 
-def real_sweeps(thorough: bool, o: Outcome | None = None, flows1=None):
+# path shapes: the flow of process_dump (backup, overwrite, close) on every shape from its clean database,
+# then the plain reopen (= the restore) from every distinct state a kill of it leaves
+SHAPE_FLOW1, SHAPE_FLOW2 = "BOC", "C"
+SHAPE_STRIDE1, SHAPE_STRIDE2 = 16, 32
+
+
+def is_shape_sid(sid) -> bool:
+    return isinstance(sid, str) and sid.startswith("sh:")
+
+
+def real_sweeps(thorough: bool, o: Outcome | None = None, flows1=None, shapes=None):
     """Phase A (before any TLC output is loaded: the process must stay small, it forks a
     lot): level-1 and level-2 kill sweeps of the real flows."""
     common.use_repo()
@@ -885,7 +1121,22 @@ def real_sweeps(thorough: bool, o: Outcome | None = None, flows1=None):
             flows.remove(JFLOW)
         # ---------------- level 1: every line of every flow from the clean database
         plan1 = [(0, f, GENS[0], None) for f in flows]
-        if not flows1 and not os.environ.get("C11_TIMING_NOJ"):
+        only_shapes = bool(os.environ.get("C11_ONLY_SHAPES")) and not flows1
+        if only_shapes:  # measuring / debugging the path-shape dimension alone
+            plan1 = []
+        if shapes and not flows1:
+            sib_seed = build_sibling_seed(root, root / "S0")
+            _G["sib_ref"] = {role: hashlib.sha1((sib_seed / f).read_bytes()).hexdigest()
+                             for role, f in (("main", "x"), ("wal", "x-wal"), ("shm", "x-shm"))}
+            for sh in shapes:
+                sid = "sh:" + sh["id"]
+                starts[sid] = {"dir": str(build_shape(root, sh, sib_seed)), "chain": [], "runs": [], "kind": "base", "shape": sh}
+                start_result(root, starts, ov, sid)
+                if okey(starts[sid]["result"]["obs"]) != base_key:
+                    raise RuntimeError("start state of path shape differs from the base database: " + json.dumps(starts[sid]["result"]["obs"]))
+                plan1.append((sid, SHAPE_FLOW1, GENS[0], None if thorough else SHAPE_STRIDE1))
+                _PROBES.append(probe_tempdir_close(root, sh, sib_seed))
+        if not flows1 and not only_shapes and not os.environ.get("C11_TIMING_NOJ"):
             # journal dimension: the dedicated flow from an existing empty file and from a rollback-mode
             # database; the plain open of a path that does not exist yet
             for kind, d in build_jstarts(root, root / "S0").items():
@@ -904,13 +1155,13 @@ def real_sweeps(thorough: bool, o: Outcome | None = None, flows1=None):
         # ---------------- level 2: start from every distinct state a first run can leave
         reps: dict = {}
         for sw in sweeps1:
-            if sw.sid not in (0, "A"):
+            if sw.sid not in (0, "A") and not is_shape_sid(sw.sid):
                 continue
             seq, idx = sw.seq()
             own = okey(starts[sw.sid]["result"]["obs"])
             for k in sorted(sw.res):
                 ok_ = okey(sw.res[k]["obs"])
-                key = (sw.sid, sw.flow, ok_) if thorough else (sw.sid, "*", ok_)
+                key = (sw.sid, sw.flow, ok_) if thorough and not is_shape_sid(sw.sid) else (sw.sid, "*", ok_)
                 if key not in reps and ok_ != own:
                     reps[key] = (sw, k, idx[k], seq)
         keep_tasks = []
@@ -919,24 +1170,29 @@ def real_sweeps(thorough: bool, o: Outcome | None = None, flows1=None):
             if sw.sid == 0:
                 nb += 1
                 n = nb
+            elif is_shape_sid(sw.sid):
+                n = f"{sw.sid}#{len(keep_tasks)}"
             else:
                 nj += 1
                 n = f"A{nj}"
-            keep_tasks.append((n, sw, k, oi, seq, root / "states" / str(n)))
+            keep_tasks.append((n, sw, k, oi, seq, root / "states" / f"st{len(keep_tasks)}"))
         _G.update(root=str(root), starts=starts, ov=ov)
         kept = pmap(exec_tasks, [(sw.sid, sw.flow, sw.gen, k, str(d)) for (n, sw, k, oi, seq, d) in keep_tasks])
         for (n, sw, k, oi, seq, d), r in zip(keep_tasks, kept):
             if okey(r["obs"]) != okey(sw.res[k]["obs"]):
                 raise RuntimeError("kill point not reproducible: " + json.dumps([sw.flow, k, r["obs"], sw.res[k]["obs"]]))
             starts[n] = {
-                "dir": str(d), "hash": dirhash(d), "result": r, "kind": starts[sw.sid]["kind"],
+                "dir": str(d), "hash": dirhash(shape_dir(d, starts[sw.sid].get("shape"))), "result": r, "kind": starts[sw.sid]["kind"],
                 "chain": [(sw.flow, okey(r["obs"]))],
                 "runs": [{"flow": sw.flow, "obs": seq[:oi], "killed": r["rc"] != 0}],
             }
+            if starts[sw.sid].get("shape"):
+                starts[n]["shape"] = starts[sw.sid]["shape"]
         flows2 = flows if thorough else ["BOC", "C", "OC"]
         js = None if thorough else JSTRIDE2
         plan2 = [(n, f, GENS[1], None) for n in sorted(x for x in starts if isinstance(x, int) and x != 0) for f in flows2]
         plan2 += [(n, JFLOW, JGENS[3], js) for n in sorted(x for x in starts if isinstance(x, str) and x[1:].isdigit())]
+        plan2 += [(n, SHAPE_FLOW2, GENS[1], None if thorough else SHAPE_STRIDE2) for n in sorted(x for x in starts if is_shape_sid(x) and "#" in x)]
         counts = pmap(exec_tasks, [(n, f, g, 0, None) for n, f, g, _ in plan2])
         sweeps2 = []
         for (n, f, g, s_), c in zip(plan2, counts):
@@ -975,12 +1231,43 @@ def run(tier: str) -> int:
         t_ph[0] = time.time()
 
     o.extra["phase_s"] = ph
-    starts, sweeps1, sweeps2, base_key = real_sweeps(thorough, o)
+    shapes = path_shapes(o, thorough)
+    phase("tlc_paths")
+    starts, sweeps1, sweeps2, base_key = real_sweeps(thorough, o, shapes=shapes)
     phase("real_sweeps")
     kind_of = lambda sw: starts[sw.sid]["kind"]  # noqa: E731
-    flows2 = sorted({sw.flow for sw in sweeps2 if kind_of(sw) == "base"})
-    o.extra["kill_points_level1"] = {(sw.flow if kind_of(sw) == "base" else kind_of(sw) + ":" + sw.flow): len(sw.res) for sw in sweeps1}
-    base2 = [sw for sw in sweeps2 if kind_of(sw) == "base"]
+    shape_of = lambda sw: starts[sw.sid].get("shape")  # noqa: E731
+    flows2 = sorted({sw.flow for sw in sweeps2 if kind_of(sw) == "base" and not shape_of(sw)}) or ["BOC", "C", "OC"]
+    o.extra["kill_points_level1"] = {(sw.flow if kind_of(sw) == "base" else kind_of(sw) + ":" + sw.flow): len(sw.res)
+                                     for sw in sweeps1 if not shape_of(sw)}
+    base2 = [sw for sw in sweeps2 if kind_of(sw) == "base" and not shape_of(sw)]
+    o.extra["path_shapes"] = {
+        "shapes": {sh["id"]: {"path": ("(relative) " if sh["rel"] else "") + (sh["dir"] + "/" if sh["dir"] else "") + sh["files"]["main"],
+                              "files": sh["files"], "siblings": [q["main"] for q in sh["sibs"]],
+                              "excluded_by_the_naming_scheme": sh["colliding"]} for sh in shapes},
+        "level1_kill_points": {shape_of(sw)["id"] + ":" + sw.flow: len(sw.res) for sw in sweeps1 if shape_of(sw)},
+        "level2": {"start_states": len([sw for sw in sweeps2 if shape_of(sw)]),
+                   "kill_points": sum(len(sw.res) for sw in sweeps2 if shape_of(sw))},
+        "sibling_files_touched": 0, "temp_name_differs_from_model": 0,
+    }
+    # N5 (outside the statement: a database of the temporary directory is deleted by its close on purpose; what else
+    # goes with it is reported as drift, with the prediction of the model variant "CloseByGlob")
+    by_id = {sh["id"]: sh for sh in shapes}
+    o.extra["path_shapes"]["tempdir_close"] = {}
+    for pr in _PROBES:
+        sh = by_id[pr["shape"]]
+        own, asis = sorted(sh["closeown"]), sorted(sh["globclose"])
+        verdict = ("exactly its own files" if pr["removed"] == own else
+                   "what the name read as a pattern matches (BackupPaths deviation CloseByGlob)" if pr["removed"] == asis else "something else")
+        lost = sorted(q["main"] for q in sh["sibs"] if q["main"] in pr["removed"])
+        o.extra["path_shapes"]["tempdir_close"][sh["id"]] = {"removed": pr["removed"], "verdict": verdict, "sibling_databases_deleted": lost,
+                                                              "own_files_left": sorted(set(own) - set(pr["removed"]))}
+        o.evaluations += 1
+        if pr["removed"] != own:
+            o.note_drift({"why": "close_db_conn() of a database lying directly in the temporary directory removed " + verdict
+                          + f": removed {pr['removed']}, its own files are {own}"
+                          + (f"; the sibling database(s) {lost} are deleted with everything committed in them" if lost else ""),
+                          "path": shape_desc(sh), "model": "BackupPaths N5 / Demo_BackupPaths_closeglob.cfg"})
     o.extra["level2"] = {"start_states": sum(1 for x in starts if isinstance(x, int) and x != 0), "sweeps": len(base2),
                          "kill_points": sum(len(sw.res) for sw in base2)}
     j2 = [sw for sw in sweeps2 if kind_of(sw) != "base"]
@@ -1054,6 +1341,9 @@ def run(tier: str) -> int:
                     "flow": sw.flow, "kill_line_index": k, "of": sw.K, "files": r["obs"]}
             if kind != "base":
                 case.update(start_kind=kind, gen=sw.gen)
+            sh = shape_of(sw)
+            if sh:
+                case.update(shape=sh["id"], path=shape_desc(sh))
             if r["rc"] == 3:  # the flow raised: judged like a kill at that point
                 o.extra.setdefault("flows_that_raised", {}).setdefault(case["flows"], r["msg"])
             cands = list(preds.get((tid, idx[k]), []))
@@ -1085,8 +1375,12 @@ def run(tier: str) -> int:
                                     f"a new Wtp(db_path) after the kill yields content {describe(real['content'])}; at this point of the flow "
                                     f"({r.get('marks')} library call(s) begun/returned) the statement allows only "
                                     + " or ".join(describe(a) for a in sorted(allowed)) + side_files_note(r["obs"]), cls="coarse:" + case["flows"])
+            if sh:
+                judge_siblings(o, case, r, sh)
             if kind != "base":
                 o.shape((kind,) + chain_key)
+            elif sh:
+                o.shape(("path:" + sh["id"],) + chain_key)
             elif okey(r["obs"]) != base_key:
                 o.shape(chain_key)
             # conformance of the file state after the reopen (outside the property: drift)
@@ -1149,13 +1443,22 @@ def replay(path: str) -> int:
             d = build_jstarts(root, root / "S0")[kind]
             g1 = JGENS[0]
             print(f"initial state: {kind}: {sorted(p.name for p in d.iterdir())}")
+        sh = None
+        if case.get("shape"):  # path-shape dimension: the database under the name TLC computed, its siblings beside it
+            sh = next(x for t in (False, True) for x in path_shapes(None, t) if x["id"] == case["shape"])
+            sib_seed = build_sibling_seed(root, root / "S0")
+            _G["sib_ref"] = {role: hashlib.sha1((sib_seed / f).read_bytes()).hexdigest()
+                             for role, f in (("main", "x"), ("wal", "x-wal"), ("shm", "x-shm"))}
+            d = build_shape(root, sh, sib_seed)
+            print(shape_desc(sh), "; files:", sh["files"], "; siblings:", [q["main"] for q in sh["sibs"]])
+        rel = bool(sh and sh["rel"])
         chain = list(case.get("start") or [])
         with Scratch("c11o-") as sc:
             # re-create the start state: kill the first flow where its file state equals the recorded one
             if chain:
                 f1 = chain[0]["flow"]
                 target = okey(chain[0]["obs"][-1])
-                _G.update(root=str(root), starts={0: {"dir": str(d)}}, ov=ov)
+                _G.update(root=str(root), starts={0: {"dir": str(d), "shape": sh}}, ov=ov)
                 K = exec_tasks([(0, f1, g1, 0, None)])[0]["lines"]
                 for k in range(1, K + 2):
                     r = exec_tasks([(0, f1, g1, k, str(root / "S1"))])[0]
@@ -1169,12 +1472,16 @@ def replay(path: str) -> int:
             work = root / "w"
             shutil.copytree(d, work)
             gen = case.get("gen") or (GENS[1] if chain else GENS[0])
-            rc, msg, _marks = fork_flow(case["flow"], work / DBNAME, ov_paths(ov, case["flow"], gen), case["kill_line_index"])
+            rc, msg, _marks = fork_flow(case["flow"], shape_db(work, sh), ov_paths(ov, case["flow"], gen), case["kill_line_index"], rel)
             print(f"flow {case['flow']} killed at line index {case['kill_line_index']} (exit {rc})")
-            print("files:", {p.name: p.stat().st_size for p in sorted(work.iterdir())})
-            print("observed:", observe(work, sc / "s"))
-            re = fork_reopen(work / DBNAME)
+            print("files:", {p.name: p.stat().st_size for p in sorted(shape_dir(work, sh).iterdir())})
+            print("observed:", observe(shape_dir(work, sh), sc / "s", sh))
+            re = fork_reopen(shape_db(work, sh), rel)
             print("reopen:", re, "=", describe(re["content"], re.get("page_versions")))
+            if case.get("sibling"):
+                sib = observe(shape_dir(work, sh), sc / "s", sh).get("sib") or {}
+                print("sibling databases after the reopen:", sib or "untouched")
+                return 1 if any(x["content_lost"] for x in sib.values()) else 0
             print("demanded:", describe(case["expected"]) if "expected" in case else case.get("allowed"))
             if "expected" not in case:  # judged by progress marks only: the recorded set of allowed contents
                 okc = [sorted(a) for a in case.get("allowed", [])]
